@@ -293,6 +293,7 @@ func detSection(t *rapid.T, opts gen.Opts) string {
 				line("    s1 = set(d.keys())")
 				line("    s2 = set([\"key-%%d-with-a-long-suffix\" %% i for i in range(5, %d, 2)])", n+20)
 				line("    print(s1 | s2, s1 & s2, s1 - s2, s1 ^ s2, s2.union(s1), len(s1))")
+				line("    print(s1 <= (s1 | s2), (s1 & s2) <= s1, (s1 & s2) < s1, s1.issubset(list(s1 | s2)), (s1 | s2).issuperset(s2), (s1 | s2) >= s1, s1 <= s2, s1 == set(list(s1)))")
 			} else {
 				line("    print({v: k for k, v in d.items()})")
 			}
